@@ -12,10 +12,16 @@
 //!  "ss"      toy-scale dyadic set-speed run (seeded generator), all integers:
 //!            links[{len m, elevs[[o m,e/64 m]], hd[[o m, h/256 rad]]}], cars[{n,len,mass,freight,axles,rot,
 //!            bearing/4 N,rolling/1024,davis_b/4096 s/m,cda/16 m2}], train_mass?, c0, consist{units,pdct},
-//!            t[] (1/4 s), v[] (1/2 m/s); optional x0 [m] (front starts mid-route), tinit:"default" (initial clock 0 s
+//!            t[] (1/4 s), v[] (1/2 m/s); optional res:"point" (TrainRes::Point instead of the builder's Strap); optional x0 [m] (front starts mid-route), tinit:"default" (initial clock 0 s
 //!            instead of t[0]), vinit:"default" (initial speed 0 instead of v[0]: rolling start), days; consist units of kind conv | bel (avh::build toy units) | hybrid (shipped default)
+//!            consist.units0 / consist.ctor ("new": Consist::new, then set_loco_vec with `units`) / consist.nolimits
+//!            (set_assert_limits(false)); "hot" generated runs: unit ratings of 2-8 kW under 1 m/s2 demands
 //!  "sl"      realistic-scale speed-limited run on a generated single line (tolerance mode); optional x0_extra [m]
-//!            (mid-route start), dt4 (step size in 1/4 s: 2, 4, 8)
+//!            (mid-route start), t0 [s] (departure time of the initial state), dt4 (step size in 1/4 s: 2, 4, 8)
+//!  "relist"  TLC-emitted (section Ledger / make-up): {"u0":[0 diesel | 1 battery ..],"u":[..],"d":1|2} -> set-speed run under
+//!            a consist made by Consist::new(u0) and re-listed through set_loco_vec(u)
+//!  "vec"     {"sims":[1..3 "ss" descriptors]}: each run recorded as usual, the finished ones read as one
+//!            SpeedLimitTrainSimVec (event GetVec: per-simulation and vec-level outputs, plain / annualized)
 //!
 //! Projection (abstraction function) of the toy-scale records — divisions by constants / logged fields only:
 //!  wg  = weight_static / g                      [kg]          rr  = res_rolling / weight * towed_mass   [x1024]
@@ -131,18 +137,47 @@ fn toy_locos(units: &[Value]) -> anyhow::Result<Vec<Locomotive>> {
 }
 
 /// "units0" (optional): the consist is first constructed from that list and its locomotives are then replaced
-/// through the public setter `set_loco_vec` (grown or shrunk) before it is handed to the builder.
+/// through the public setter `set_loco_vec` (grown, shrunk, another make-up) before it is handed to the builder.
+/// "ctor":"new": that first construction goes through the public constructor `Consist::new` (which fills the
+/// consist's cached count of battery-equipped units) instead of deserialisation (cache empty).
+/// "nolimits":true: `set_assert_limits(false)` (a demand beyond the published limits does not abort the run).
 fn toy_consist(c: &Value) -> anyhow::Result<Consist> {
     let locos = toy_locos(ga(c, "units"))?;
-    match c.get("units0").and_then(|x| x.as_array()) {
+    let mut con = match c.get("units0").and_then(|x| x.as_array()) {
         Some(u0) => {
-            let mut con = build::consist_of(toy_locos(u0)?, gs(c, "pdct"), Some(1))?;
+            let mut con = if c.get("ctor").and_then(|x| x.as_str()) == Some("new") {
+                let pdct: altrios_core::consist::PowerDistributionControlType =
+                    serde_json::from_value(json!({ gs(c, "pdct"): null }))?;
+                let mut con = Consist::new(toy_locos(u0)?, Some(1), pdct);
+                con.init()?;
+                con
+            } else {
+                build::consist_of(toy_locos(u0)?, gs(c, "pdct"), Some(1))?
+            };
             con.set_loco_vec(locos);
             con.set_save_interval(Some(1));
-            Ok(con)
+            con
         }
-        None => build::consist_of(locos, gs(c, "pdct"), Some(1)),
+        None => build::consist_of(locos, gs(c, "pdct"), Some(1))?,
+    };
+    if c.get("nolimits").and_then(|x| x.as_bool()) == Some(true) {
+        con.set_assert_limits(false);
     }
+    Ok(con)
+}
+
+/// number of battery-equipped units of a descriptor's unit list
+fn nres_of(units: &[Value]) -> usize {
+    units.iter().filter(|u| matches!(u.get("kind").and_then(|x| x.as_str()), Some("bel") | Some("hybrid"))).count()
+}
+
+/// make-up of a consist as the kinds of its locomotives (read from the locomotives' own type tags)
+fn kinds_of(c: &Consist) -> Value {
+    Value::Array(c.loco_vec.iter().map(|l| {
+        let v = serde_json::to_value(&l.loco_type).unwrap_or(Value::Null);
+        let k = v.as_object().and_then(|o| o.keys().next().cloned()).unwrap_or_default();
+        json!(match k.as_str() { "ConventionalLoco" => "conv", "BatteryElectricLoco" => "bel", "HybridLoco" => "hybrid", _ => "other" })
+    }).collect())
 }
 
 fn train_config(desc: &Value, vmax: f64) -> anyhow::Result<TrainConfig> {
@@ -256,14 +291,15 @@ fn curves_of(simv: &Value, so: f64) -> Value {
 // ---------------------------------------------------------------------------------------------
 // set-speed runs
 
-fn run_ss(desc: &Value, tr: &mut Tracer) -> anyhow::Result<()> {
+/// Returns the finished run as the SpeedLimitTrainSim its trip getters were read through (None: rejected / refused).
+fn run_ss(desc: &Value, tr: &mut Tracer) -> anyhow::Result<Option<SpeedLimitTrainSim>> {
     let vmax = 64.0;
     let links = ga(desc, "links");
     let (net, route) = match make_network(links, vmax) {
         Ok(x) => x,
         Err(e) => {
             tr.emit(json!({"ev":"Rejected","what":"network","msg":errtxt(&e)}));
-            return Ok(());
+            return Ok(None);
         }
     };
     let tc = train_config(desc, vmax)?;
@@ -291,9 +327,22 @@ fn run_ss(desc: &Value, tr: &mut Tracer) -> anyhow::Result<()> {
         Ok(s) => s,
         Err(e) => {
             tr.emit(json!({"ev":"Rejected","what":"builder","msg":errtxt(&e)}));
-            return Ok(());
+            return Ok(None);
         }
     };
+    // "res":"point": the same run under the other resistance method of the public API (TrainRes::Point: grade and curve
+    // taken at the train's mid-point), assembled through SetSpeedTrainSim::new from the builder's parts; the Point
+    // value is made from the builder's own bearing / rolling / Davis-B / aerodynamic parts and fresh path_res::Point caches
+    let point = desc.get("res").and_then(|x| x.as_str()) == Some("point");
+    if point {
+        let trv = serde_json::to_value(&sim.train_res)?;
+        let st = &trv["Strap"];
+        let pr = serde_json::to_value(altrios_core::train::kind::path_res::Point::new(parts_path.grades(), &sim.state)?)?;
+        let pc = serde_json::to_value(altrios_core::train::kind::path_res::Point::new(parts_path.curves(), &sim.state)?)?;
+        let tp: TrainRes = serde_json::from_value(json!({"Point": {"bearing": st["bearing"], "rolling": st["rolling"],
+            "davis_b": st["davis_b"], "aerodynamic": st["aerodynamic"], "grade": pr, "curve": pc}}))?;
+        sim = SetSpeedTrainSim::new(sim.loco_con.clone(), sim.state, sim.speed_trace.clone(), tp, parts_path.clone(), Some(1));
+    }
     let simv = serde_json::to_value(&sim)?;
     let towed = simv["path_tpc"]["train_params"]["towed_mass_static"].as_f64().unwrap_or(f64::NAN);
     // header: everything the spec needs to recompute E, Slopes, the aggregated coefficients and the trace
@@ -322,6 +371,12 @@ fn run_ss(desc: &Value, tr: &mut Tracer) -> anyhow::Result<()> {
         "con_mass": q.q(con_mass, 1.0), "towed": q.q(towed, 1.0),
         "len": q.q(sim.state.length.value, SO),
         "tt": tq, "tv": vq, "exact": q.exact, "t0sync": t0sync, "v0sync": v0sync || vq[0] == 0,
+        // the make-up the run was given (descriptor), whether it was installed through set_loco_vec after Consist::new,
+        // whether the consist's limit assertions are switched off
+        "units": Value::Array(ga(&desc["consist"], "units").iter().map(|u| json!(u.get("kind").and_then(|x| x.as_str()).unwrap_or("conv"))).collect()),
+        "t0": tq[0], "res": if point { "point" } else { "strap" },
+        "relist": desc["consist"].get("ctor").and_then(|x| x.as_str()) == Some("new"),
+        "nolim": desc["consist"].get("nolimits").and_then(|x| x.as_bool()) == Some(true),
     }));
     tr.emit(ss_step_json(0, &sim.state, &sim.loco_con, towed));
     let mut steps = 0usize;
@@ -344,13 +399,56 @@ fn run_ss(desc: &Value, tr: &mut Tracer) -> anyhow::Result<()> {
     }
     // trip getters live on SpeedLimitTrainSim only: read them through one assembled from this run's final state
     let days = iv(desc, "days", 7) as i32;
-    let slts = SpeedLimitTrainSim::new("t".into(), &[], &[], sim.loco_con.clone(), sim.state, parts_res, parts_path,
-                                       parts_brake, Some(1), Some(days), None);
+    let mut slts = SpeedLimitTrainSim::new("t".into(), &[], &[], sim.loco_con.clone(), sim.state, parts_res, parts_path,
+                                           parts_brake, Some(1), Some(days), None);
     if intact {
-        tr.emit(get_json(&slts, days));
+        tr.emit(get_json(&mut slts, days));
     }
     tr.emit(json!({"ev":"Done","steps":steps,"i":sim.state.i,"n":sim.speed_trace.len(),
                    "hist":sim.history.len(),"chist":sim.loco_con.history.len()}));
+    Ok(if intact { Some(slts) } else { None })
+}
+
+/// "vec": {"sims":[<ss descriptor> x 1..3]}: every run is driven and recorded as usual, the finished ones are
+/// collected into a SpeedLimitTrainSimVec and its outputs are recorded next to the per-simulation outputs
+/// (plain and annualized), all values of one quantity at one common power-of-two scale
+fn run_vec(desc: &Value, tr: &mut Tracer) -> anyhow::Result<()> {
+    let mut sims = vec![];
+    for d in ga(desc, "sims") {
+        if let Some(s) = run_ss(d, tr)? {
+            sims.push(s);
+        }
+    }
+    if sims.is_empty() {
+        return Ok(());
+    }
+    let n = sims.len();
+    let mut v = SpeedLimitTrainSimVec(sims);
+    fn row(parts: Vec<(f64, f64)>, vec: (f64, f64)) -> Value {
+        let m = parts.iter().flat_map(|p| [p.0.abs(), p.1.abs()]).chain([vec.0.abs(), vec.1.abs()]).fold(0.0, f64::max);
+        let sc = if m > 0.0 && m.is_finite() { 2f64.powi(26 - m.log2().floor() as i32) } else { 1.0 };
+        json!([parts.iter().map(|p| qi(p.0, sc)).collect::<Vec<_>>(), parts.iter().map(|p| qi(p.1, sc)).collect::<Vec<_>>(),
+               qi(vec.0, sc), qi(vec.1, sc)])
+    }
+    let fuel = row(v.0.iter().map(|s| (s.get_energy_fuel(false).value, s.get_energy_fuel(true).value)).collect(),
+                   (v.get_energy_fuel(false).value, v.get_energy_fuel(true).value));
+    let res = row(v.0.iter().map(|s| (s.get_net_energy_res(false).value, s.get_net_energy_res(true).value)).collect(),
+                  (v.get_net_energy_res(false).value, v.get_net_energy_res(true).value));
+    let mgkm = row(v.0.iter().map(|s| (s.get_megagram_kilometers(false), s.get_megagram_kilometers(true))).collect(),
+                   (v.get_megagram_kilometers(false), v.get_megagram_kilometers(true)));
+    let km = row(v.0.iter().map(|s| (s.get_kilometers(false), s.get_kilometers(true))).collect(),
+                 (v.get_kilometers(false), v.get_kilometers(true)));
+    let reskm = row(v.0.iter_mut().map(|s| (s.get_res_kilometers(false), s.get_res_kilometers(true))).collect(),
+                    (v.get_res_kilometers(false), v.get_res_kilometers(true)));
+    // a simulation whose own unit count wraps (see get_json) makes the vec-level sum meaningless: recorded as "wrap"
+    let parts: Vec<Option<(f64, f64)>> = v.0.iter_mut().map(nonres_km).collect();
+    let wrap = parts.iter().any(|p| p.is_none());
+    let nonreskm = if wrap {
+        row(vec![(0.0, 0.0); n], (0.0, 0.0))
+    } else {
+        row(parts.iter().map(|p| p.unwrap()).collect(), (v.get_non_res_kilometers(false), v.get_non_res_kilometers(true)))
+    };
+    tr.emit(json!({"ev":"GetVec","n":n,"wrap":wrap,"fuel":fuel,"res":res,"mgkm":mgkm,"km":km,"reskm":reskm,"nonreskm":nonreskm}));
     Ok(())
 }
 
@@ -402,11 +500,42 @@ fn expand_locate(desc: &Value) -> Value {
     }
     if sel % 7 == 0 {
         d["consist"]["units0"] = json!([{"kind":"conv","rfc":16384,"rgen":16384,"redrv":16384,"mass":1024}]);
+        // every fourth of them through Consist::new (with sel % 5 == 0: an all-diesel consist that is given a hybrid)
+        if sel % 4 == 0 {
+            d["consist"]["ctor"] = json!("new");
+        }
     }
     if sel % 4 == 1 {
         d["vinit"] = json!("default"); // the 8 m/s replay as a rolling start under the default initial state
     }
     d
+}
+
+/// TLC-emitted (units handed to Consist::new, units handed to set_loco_vec, distance class) -> a set-speed run of
+/// 4 x d steps (accelerating, cruising, braking) under that consist
+fn expand_relist(desc: &Value) -> Value {
+    let unit = |k: &Value| if k.as_i64() == Some(1) {
+        json!({"kind":"bel","rres":65536,"redrv":65536,"cap":65536i64 * 4096,"soc":0.5,"mass":1024,"aux":32})
+    } else {
+        json!({"kind":"conv","rfc":65536,"rgen":65536,"redrv":65536,"mass":1024,"aux":32,"idle":64})
+    };
+    let d = gi(desc, "d");
+    let mut dd = expand_locate(&json!({"lens":[3, 3, 3],"pos":[2, 3]}));
+    let (mut t, mut v) = (vec![0i64], vec![0i64]);
+    for k in 0..(4 * d) {
+        t.push(t.last().unwrap() + 8);
+        v.push(if k < 2 * d { v.last().unwrap() + 4 } else { v.last().unwrap() - 2 });
+    }
+    dd["t"] = json!(t);
+    dd["v"] = json!(v);
+    dd["consist"] = json!({"units": ga(desc, "u").iter().map(unit).collect::<Vec<_>>(),
+                           "units0": ga(desc, "u0").iter().map(unit).collect::<Vec<_>>(),
+                           "ctor":"new","pdct":"RESGreedy"});
+    for k in ["x0", "tinit", "vinit"] {
+        dd.as_object_mut().unwrap().remove(k);
+    }
+    dd["days"] = json!([1, 30, 1461][(d as usize + ga(desc, "u").len()) % 3]);
+    dd
 }
 
 // ---------------------------------------------------------------------------------------------
@@ -509,13 +638,29 @@ fn triple(plain: f64, ann: f64, raw: f64) -> Value {
     json!([qi(plain, sc), qi(ann, sc), qi(raw, sc)])
 }
 
-fn get_json(sim: &SpeedLimitTrainSim, days: i32) -> Value {
+fn nonres_km(sim: &mut SpeedLimitTrainSim) -> Option<(f64, f64)> {
+    let r = std::panic::catch_unwind(std::panic::AssertUnwindSafe(|| (sim.get_non_res_kilometers(false), sim.get_non_res_kilometers(true))));
+    match r {
+        Ok((a, b)) if a.abs() < 1e12 && b.abs() < 1e15 => Some((a, b)),
+        _ => None,
+    }
+}
+
+fn get_json(sim: &mut SpeedLimitTrainSim, days: i32) -> Value {
     let s = &sim.state;
     let km = s.total_dist.value / 1000.0;
     let mg = s.mass_freight.value / 1000.0;
     let fuel = sim.loco_con.state.energy_fuel.value;
     let res = sim.loco_con.state.energy_res.value;
-    json!({"ev":"Get","days":days,
+    // battery-unit / other-unit kilometres: <<get(false), get(true), total distance>>; the unit counts are the spec's
+    let reskm = triple(sim.get_res_kilometers(false), sim.get_res_kilometers(true), km);
+    // (`number of units - cached count` is an unsigned difference in the code: a panic or a wrapped value is recorded
+    // as "wrap", not as a number)
+    let (nonreskm, wrap) = match nonres_km(sim) {
+        Some((a, b)) => (triple(a, b, km), false),
+        None => (triple(0.0, 0.0, km), true),
+    };
+    json!({"ev":"Get","days":days,"reskm":reskm,"nonreskm":nonreskm,"wrap":wrap,
         "fuel": triple(sim.get_energy_fuel(false).value, sim.get_energy_fuel(true).value, fuel),
         "res": triple(sim.get_net_energy_res(false).value, sim.get_net_energy_res(true).value, res),
         "km": triple(sim.get_kilometers(false), sim.get_kilometers(true), km),
@@ -551,7 +696,10 @@ fn run_sl(desc: &Value, tr: &mut Tracer) -> anyhow::Result<()> {
     let lm = build::location_map(&[1], &[n as u32]);
     // "x0_extra" [m]: the front starts that far beyond the train's own length (mid-route start)
     let tlen = tc.make_train_params()?.length;
-    let init = desc.get("x0_extra").and_then(|x| x.as_f64()).map(|x| InitTrainState::new(None, Some(tlen + uc::M * x), None));
+    // "t0" [s]: departure time (the clock of the initial state)
+    let x0 = desc.get("x0_extra").and_then(|x| x.as_f64()).map(|x| tlen + uc::M * x);
+    let t0 = desc.get("t0").and_then(|x| x.as_f64()).map(|t| uc::S * t);
+    let init = if x0.is_some() || t0.is_some() { Some(InitTrainState::new(t0, x0, None)) } else { None };
     let tsb = TrainSimBuilder::new("t".into(), tc, con, Some("A".into()), Some("B".into()), init);
     let mut sim = tsb.make_speed_limit_train_sim(&lm, Some(1), Some(days), None)?;
     // "dt4" (optional): simulation step in 1/4 s (TrainState::new always gives 1 s; the field is public), set before
@@ -571,7 +719,8 @@ fn run_sl(desc: &Value, tr: &mut Tracer) -> anyhow::Result<()> {
         .collect();
     tr.emit(json!({"ev":"Hdr","mode":"sl","st":LT as i64,"sv":LV as i64,"so":LO as i64,
         "links":hl,"curves":[],"cars":[],"override":-1,"con_mass":0,"towed":0,
-        "len": qi(sim.state.length.value, LO),"tt":[],"tv":[],"exact":false,"t0sync":true,"v0sync":true,"days":days}));
+        "len": qi(sim.state.length.value, LO),"tt":[],"tv":[],"exact":false,"t0sync":true,"v0sync":true,"days":days,
+        "units": kinds_of(&sim.loco_con), "res": "strap", "relist": false, "nolim": false, "t0": iv(desc, "t0", 0)}));
     tr.emit(sl_step_json(0, &sim.state, &sim.loco_con));
     let cap = gi(desc, "cap") as usize;
     let mut steps = 0usize;
@@ -596,7 +745,7 @@ fn run_sl(desc: &Value, tr: &mut Tracer) -> anyhow::Result<()> {
         steps += 1;
     }
     if result != "err" {
-        tr.emit(get_json(&sim, days));
+        tr.emit(get_json(&mut sim, days));
     }
     tr.emit(json!({"ev":"Done","steps":steps,"result":result,"hist":sim.history.len(),"chist":sim.loco_con.history.len()}));
     Ok(())
@@ -604,10 +753,12 @@ fn run_sl(desc: &Value, tr: &mut Tracer) -> anyhow::Result<()> {
 
 fn exec(desc: &Value, tr: &mut Tracer) -> anyhow::Result<()> {
     match desc.get("kind").and_then(|x| x.as_str()).unwrap_or("ss") {
-        "locate" => run_ss(&expand_locate(desc), tr),
+        "locate" => run_ss(&expand_locate(desc), tr).map(|_| ()),
+        "relist" => run_ss(&expand_relist(desc), tr).map(|_| ()),
+        "vec" => run_vec(desc, tr),
         "strap" => run_strap(desc, tr),
         "sl" => run_sl(desc, tr),
-        _ => run_ss(desc, tr),
+        _ => run_ss(desc, tr).map(|_| ()),
     }
 }
 
@@ -627,7 +778,9 @@ fn pieces(r: &mut Rng, len: i64, sizes: &[i64]) -> Vec<i64> {
     out
 }
 
-fn gen_ss(r: &mut Rng, neg: bool) -> Value {
+/// `hot`: small unit ratings under hard accelerations and hard braking (the demand exceeds the consist's published
+/// traction limit and its dynamic-braking capability), half of them with the consist's limit assertions off
+fn gen_ss(r: &mut Rng, neg: bool, hot: bool) -> Value {
     // train
     let two = r.chance(1, 2);
     let mut cars = vec![];
@@ -685,8 +838,8 @@ fn gen_ss(r: &mut Rng, neg: bool) -> Value {
     let nu = r.range(1, 3);
     let units: Vec<Value> = (0..nu)
         .map(|_| {
-            let rt = *r.pick(&[16384i64, 32768, 65536, 131072]);
-            if r.chance(1, 3) {
+            let rt = if hot { *r.pick(&[2048i64, 4096, 8192]) } else { *r.pick(&[16384i64, 32768, 65536, 131072]) };
+            if r.chance(1, if hot { 6 } else { 3 }) {
                 // mostly a battery that outlasts the run; sometimes one that runs empty (the run is then refused)
                 let cap = if r.chance(1, 4) { rt * 64 } else { rt * 4096 };
                 json!({"kind":"bel","rres":rt,"redrv":rt,"cap": cap, "kr": *r.pick(&[1, 2]), "ke": *r.pick(&[1, 2]),
@@ -698,7 +851,7 @@ fn gen_ss(r: &mut Rng, neg: bool) -> Value {
         })
         .collect();
     let mut units = units;
-    if r.chance(1, 4) {
+    if !hot && r.chance(1, 4) {
         // a hybrid next to (or instead of) the toy units: battery energy then comes from two kinds of locomotive
         if units.len() >= 3 || r.chance(1, 3) {
             units.pop();
@@ -724,9 +877,27 @@ fn gen_ss(r: &mut Rng, neg: bool) -> Value {
     } else {
         None
     };
+    // make-up changes through set_loco_vec on a consist made by Consist::new (which caches its count of battery units):
+    // built all-diesel then given its battery units; built with a battery unit then made all-diesel; another unit count
+    let conv_of = |u: &Value| json!({"kind":"conv","rfc":u.get("rres").or(u.get("rfc")).and_then(|x| x.as_i64()).unwrap_or(16384),
+                                     "rgen":65536,"redrv":65536,"mass":1024});
+    let bel0 = json!({"kind":"bel","rres":16384,"redrv":16384,"cap":16384 * 4096,"soc":0.5,"mass":1024,"aux":32});
+    let (units0, ctor_new) = if r.chance(1, 8) {
+        let nr = nres_of(&units);
+        let u0: Vec<Value> = match r.range(0, 2) {
+            0 if nr > 0 => units.iter().map(|u| if nres_of(std::slice::from_ref(u)) > 0 { conv_of(u) } else { u.clone() }).collect(),
+            0 => { let mut u = units.clone(); u[0] = bel0.clone(); u }
+            1 if nr > 0 => units.iter().filter(|u| nres_of(std::slice::from_ref(*u)) == 0).cloned().chain([conv_of(&units[0])]).collect(),
+            1 => { let mut u = units.clone(); u.push(bel0.clone()); if u.len() > 2 { u.remove(0); } u }
+            _ => match &units0 { Some(u) => u.clone(), None => vec![conv_of(&units[0])] },
+        };
+        (Some(u0), true)
+    } else {
+        (units0, false)
+    };
     let has_hybrid = units.iter().any(|u| u["kind"] == "hybrid");
     // hard braking (up to 1 m/s2): beyond the regeneration capability of small batteries
-    let hard = if has_hybrid { r.chance(2, 3) } else { r.chance(1, 6) };
+    let hard = if has_hybrid { r.chance(2, 3) } else { hot || r.chance(1, 6) };
     // start: front at the train's own length (default) or mid-route
     let x0 = if r.chance(1, 3) { tlen + r.range(1, ((total - tlen - 16) / 2).max(1)) } else { tlen };
     // trace: irregular dyadic time stamps, |accel| <= 1/2 m/s2, speeds in 1/2 m/s, inside the path
@@ -745,7 +916,7 @@ fn gen_ss(r: &mut Rng, neg: bool) -> Value {
             target = if r.chance(1, 4) { 0 } else { r.range(0, 32) };
         }
         let dtq = if cruise { *r.pick(&[4i64, 8]) } else { *r.pick(&[1i64, 2, 4, 4, 8, 8, 16]) };
-        let amax = dtq / 4; // |dv| <= 1/2 m/s2 x dt
+        let amax = if hot { dtq / 2 } else { dtq / 4 }; // |dv| <= 1/2 m/s2 x dt (hot: 1 m/s2)
         let v0 = *v.last().unwrap();
         let bmax = if hard { dtq / 2 } else { amax };
         let mut dv = (target - v0).clamp(-bmax, amax);
@@ -776,6 +947,12 @@ fn gen_ss(r: &mut Rng, neg: bool) -> Value {
     }
     if let Some(u0) = units0 {
         d["consist"]["units0"] = Value::Array(u0);
+        if ctor_new {
+            d["consist"]["ctor"] = json!("new");
+        }
+    }
+    if hot && r.chance(1, 2) {
+        d["consist"]["nolimits"] = json!(true);
     }
     if x0 != tlen {
         d["x0"] = json!(x0);
@@ -788,6 +965,9 @@ fn gen_ss(r: &mut Rng, neg: bool) -> Value {
         d["vinit"] = json!("default");
     }
     d["days"] = json!(*r.pick(&[1i64, 7, 30, 365, 1461]));
+    if !neg && r.chance(1, 8) {
+        d["res"] = json!("point");
+    }
     d
 }
 
@@ -832,6 +1012,10 @@ fn gen_sl(r: &mut Rng, tier: &str) -> Value {
     if r.chance(1, 2) {
         d["x0_extra"] = json!(r.range(1, 800));
     }
+    // departure time: 0 (default initial state) or a clock that started elsewhere
+    if r.chance(2, 3) {
+        d["t0"] = json!(*r.pick(&[1i64, 600, 3600, 86400]) * r.range(1, 3));
+    }
     // step size 1/2, 1 or 2 s (default 1 s in a third of the runs)
     match r.range(0, 2) {
         0 => {
@@ -850,8 +1034,12 @@ fn gen(seed: u64, n: usize, tier: &str) -> Vec<Value> {
         let mut r = Rng::new(seed.wrapping_mul(1_000_003).wrapping_add(k as u64));
         let mut d = if k % 32 == 31 {
             gen_sl(&mut r, tier)
+        } else if k % 16 == 5 {
+            // 1..3 finished runs with make-ups / simulation_days of their own, read as a SpeedLimitTrainSimVec
+            let n = 1 + (k / 16) % 3;
+            json!({"kind":"vec","sims": (0..n).map(|_| gen_ss(&mut r, false, false)).collect::<Vec<_>>()})
         } else {
-            gen_ss(&mut r, k % 4 == 3)
+            gen_ss(&mut r, k % 4 == 3, k % 8 == 2)
         };
         d["src"] = json!("gen");
         d["seed"] = json!(seed);
